@@ -393,7 +393,7 @@ var portCounter uint32
 func nextPort() int {
 	for {
 		p := 20000 + int((uint32(os.Getpid())*7919+atomic.AddUint32(&portCounter, 1))%12000)
-		if p == 18080 || p == 18443 {
+		if hx.IsQuietPort(p) {
 			continue
 		}
 		ln, err := net.Listen("tcp", "127.0.0.1:"+strconv.Itoa(p))
